@@ -138,7 +138,7 @@ package jen
 // ---- file assembly ----
 
 //@ func Comment [C01,C02,C03,C04,C07,C08,C09,C10,C14,C15,C19]
-//@   ensures [C15,C14] one: fresh(result) && len(*result) == 1 && (*result)[0] == C_comment(mk_comment(str))
+//@   ensures [C15,C14] one: fresh(result) && len(*result) == 1 && (*result)[0] == C_comment(mk_comment(str)) && fresh((*result).arr)
 
 //@ func (*File).renderImports [C01,C02,C03,C04,C07,C08,C09,C10,C15,C19]
 //@   unfold CommentLines stable wfImp
@@ -480,6 +480,7 @@ package jen
 //@   ensures [C14,C20] self: result == s
 //@   ensures [C14,C20,C01] appended: len(*s) == old(len(*s)) + 2 && (forall j int :: { (*s)[j] } (0 <= j && j < old(len(*s))) ==> (*s)[j] == old((*s)[j]))
 //@   ensures [C14,C01] items: (*s)[old(len(*s))] == C_token(mk_token("delimiter", A_string("."))) && (*s)[old(len(*s)) + 1] == C_token(mk_token("identifier", A_string(name)))
+//@   ensures [C20] backing: len(*s) <= cap(*s) && (old(len(*s)) + 2 <= old(cap(*s)) ? (*s).arr == old((*s).arr) && cap(*s) == old(cap(*s)) : fresh((*s).arr))
 
 //@ func (*Statement).Qual [C14,C20,C01,C03,C09]
 //@   requires s != nil
@@ -488,9 +489,10 @@ package jen
 //@   ensures [C14,C20,C01] appended: len(*s) == old(len(*s)) + 1 && (forall j int :: { (*s)[j] } (0 <= j && j < old(len(*s))) ==> (*s)[j] == old((*s)[j]))
 //@   ensures [C14,C01,C03] item: is_C_pGroup((*s)[old(len(*s))]) && fresh(C_pGroup_v((*s)[old(len(*s))]))
 //@       && C_pGroup_v((*s)[old(len(*s))]).name == "qual" && C_pGroup_v((*s)[old(len(*s))]).open == "" && C_pGroup_v((*s)[old(len(*s))]).close == ""
-//@       && C_pGroup_v((*s)[old(len(*s))]).separator == "." && !C_pGroup_v((*s)[old(len(*s))]).multi && len(C_pGroup_v((*s)[old(len(*s))]).items) == 2
+//@       && C_pGroup_v((*s)[old(len(*s))]).separator == "." && !C_pGroup_v((*s)[old(len(*s))]).multi && len(C_pGroup_v((*s)[old(len(*s))]).items) == 2 && fresh(C_pGroup_v((*s)[old(len(*s))]).items.arr)
 //@       && C_pGroup_v((*s)[old(len(*s))]).items[0] == C_token(mk_token("package", A_string(path)))
 //@       && C_pGroup_v((*s)[old(len(*s))]).items[1] == C_token(mk_token("identifier", A_string(name)))
+//@   ensures [C20] backing: len(*s) <= cap(*s) && (old(len(*s)) + 1 <= old(cap(*s)) ? (*s).arr == old((*s).arr) && cap(*s) == old(cap(*s)) : fresh((*s).arr))
 
 //@ func (*Statement).Custom [C14,C20,C01,C09]
 //@   requires s != nil
@@ -500,6 +502,7 @@ package jen
 //@   ensures [C14,C01] item: is_C_pGroup((*s)[old(len(*s))]) && fresh(C_pGroup_v((*s)[old(len(*s))]))
 //@       && C_pGroup_v((*s)[old(len(*s))]).name == "custom" && C_pGroup_v((*s)[old(len(*s))]).open == options.Open && C_pGroup_v((*s)[old(len(*s))]).close == options.Close
 //@       && C_pGroup_v((*s)[old(len(*s))]).separator == options.Separator && C_pGroup_v((*s)[old(len(*s))]).multi == options.Multi && C_pGroup_v((*s)[old(len(*s))]).items == statements
+//@   ensures [C20] backing: len(*s) <= cap(*s) && (old(len(*s)) + 1 <= old(cap(*s)) ? (*s).arr == old((*s).arr) && cap(*s) == old(cap(*s)) : fresh((*s).arr))
 
 //@ func (*Statement).Tag [C14,C17,C20,C09]
 //@   requires s != nil
@@ -507,6 +510,7 @@ package jen
 //@   ensures [C14,C20] self: result == s
 //@   ensures [C14,C20] appended: len(*s) == old(len(*s)) + 1 && (forall j int :: { (*s)[j] } (0 <= j && j < old(len(*s))) ==> (*s)[j] == old((*s)[j]))
 //@   ensures [C14,C17] item: (*s)[old(len(*s))] == C_tag(mk_tag(items))
+//@   ensures [C20] backing: len(*s) <= cap(*s) && (old(len(*s)) + 1 <= old(cap(*s)) ? (*s).arr == old((*s).arr) && cap(*s) == old(cap(*s)) : fresh((*s).arr))
 
 //@ func (*Statement).Comment [C14,C15,C20,C09]
 //@   requires s != nil
@@ -514,6 +518,7 @@ package jen
 //@   ensures [C14,C20] self: result == s
 //@   ensures [C14,C20] appended: len(*s) == old(len(*s)) + 1 && (forall j int :: { (*s)[j] } (0 <= j && j < old(len(*s))) ==> (*s)[j] == old((*s)[j]))
 //@   ensures [C14,C15] item: (*s)[old(len(*s))] == C_comment(mk_comment(str))
+//@   ensures [C20] backing: len(*s) <= cap(*s) && (old(len(*s)) + 1 <= old(cap(*s)) ? (*s).arr == old((*s).arr) && cap(*s) == old(cap(*s)) : fresh((*s).arr))
 
 //@ func (*Statement).Do [C14,C09]
 //@   requires s != nil
